@@ -302,6 +302,21 @@ impl<'tcx> Cx<'tcx> {
     }
 
     fn scalar_json(&self, c: &ConstOperand<'tcx>, t: Ty<'tcx>) -> String {
+        // pointer to a static: keep the static's identity
+        if let Const::Val(mir::ConstValue::Scalar(mir::interpret::Scalar::Ptr(ptr, _)), _) = c.const_ {
+            let (prov, off) = ptr.prov_and_relative_offset();
+            if let Some(rustc_middle::mir::interpret::GlobalAlloc::Static(did)) =
+                self.tcx.try_get_global_alloc(prov.alloc_id())
+            {
+                return jobj(&[
+                    ("t", js("static_ref")),
+                    ("id", js(&self.id(did))),
+                    ("path", js(&self.path(did))),
+                    ("offset", off.bytes().to_string()),
+                    ("ty", js(&self.ty(t))),
+                ]);
+            }
+        }
         if let Some(si) = c.const_.try_to_scalar_int() {
             if t.is_bool() {
                 if let Ok(b) = bool::try_from(si) {
